@@ -309,6 +309,22 @@ def pmap(fn, items, jobs=None):
         return list(ex.map(fn, items))
 
 
+_PFN = None
+
+
+def _pcall(a):
+    return _PFN(a)
+
+
+def pmap_proc(fn, items, jobs=None, chunk=2):
+    """like pmap but in forked worker processes (for checks whose oracle is Python-heavy); fn's results must be picklable"""
+    global _PFN
+    import multiprocessing
+    _PFN = fn
+    with multiprocessing.get_context('fork').Pool(jobs or NJOBS) as pool:
+        return pool.map(_pcall, list(items), chunksize=chunk)
+
+
 def generic_replay(path):
     """Re-run the recorded harness command of a witness (binaries are rebuilt by the caller's builds())."""
     w = json.load(open(path))
